@@ -245,6 +245,13 @@ class MockUpstream:
             i += 1 + req[i]
         return i + 5
 
+    def empty_reply(self, req):
+        """NOERROR, recursion available, the question echoed, no records"""
+        qe = self.question_end(req)
+        if qe > len(req):
+            return None
+        return bytes(req[:2]) + bytes([0x80 | (req[2] & 1), 0x80]) + b"\x00\x01\x00\x00\x00\x00\x00\x00" + bytes(req[12:qe])
+
     def one_a_reply(self, req, tc=False):
         """the request's question answered with one A record (or, with tc, an empty truncated reply)"""
         qe = self.question_end(req)
@@ -266,6 +273,11 @@ class MockUpstream:
             except OSError:
                 return
             if self.behaviour == "silent":
+                continue
+            if self.behaviour == "empty":
+                rep = self.empty_reply(req)
+                if rep:
+                    self.udp.sendto(rep, peer)
                 continue
             if self.behaviour.startswith("tcp_"):
                 # over UDP only a truncated reply: the resolver has to come back over TCP
@@ -315,6 +327,11 @@ class MockUpstream:
                         if not b:
                             break
                         req += b
+                    if self.behaviour == "empty":
+                        rep = self.empty_reply(req)
+                        if rep:
+                            c.sendall(struct.pack("!H", len(rep)) + rep)
+                        continue
                     if self.behaviour.startswith("tcp_"):
                         # tcp_full: the whole reply; tcp_cut:N: the length prefix, N octets of the reply, then the
                         # connection is closed; tcp_prefix:N: only N octets of the length prefix
